@@ -270,3 +270,429 @@ Proof.
       rewrite Forall_forall in Hs2. specialize (Hs2 _ (in_map step_eid _ _ H0)). lia.
     + exact (Hto s0 (or_intror H0) Hin).
 Qed.
+
+Lemma merge_steps_proj es : forall fs ss,
+  merge_steps es fs = Ok ss -> steps_edges ss = es /\ steps_folds ss = fs.
+Proof.
+  induction es as [|e es' IHe]; intros fs ss H.
+  - rewrite merge_steps_nil in H. injection H as <-. now rewrite steps_edges_map_folds, steps_folds_map.
+  - revert ss H. induction fs as [|[h c] fs' IHf]; intros ss H; rewrite merge_steps_cons in H.
+    + injection H as <-. cbn [steps_edges steps_folds]. now rewrite steps_edges_map, steps_folds_map_edges.
+    + destruct (N.compare (fo_eid h) (e_eid e)); [discriminate| |]; inv_bind H; injection H as <-.
+      * destruct (IHf _ Hx) as (E1 & E2). cbn [steps_edges steps_folds]. now rewrite E1, E2.
+      * destruct (IHe _ _ Hx) as (E1 & E2). cbn [steps_edges steps_folds]. now rewrite E1, E2.
+Qed.
+
+(* ================================================================== *)
+(* 4. what wf_comp says, clause by clause                              *)
+(* ================================================================== *)
+Definition comp_vids (vs : list ir_vertex) : list N := map v_vid vs.
+Definition comp_feids (fs : list raw_fold) : list N := map (fun f => fo_eid (rf_hdr f)) fs.
+
+Lemma wf_comp_inv vars avail root vs es fs outs :
+  wf_comp vars avail (RComp root vs es fs outs) = true ->
+  sortedN (map e_eid es) = true /\ sortedN (comp_feids fs) = true /\ In root (comp_vids vs) /\
+  (forall v, In v (comp_vids vs) -> v = root \/ In v (map e_to es)) /\
+  (forall e, In e es -> edge_wf (comp_vids vs) e = true) /\
+  (forall v, In v vs -> vertex_wf vars (comp_vids vs) (comp_feids fs) avail v = true) /\
+  (forall o, In o outs -> In (cf_vid (snd o)) (comp_vids vs)) /\
+  (forall h sub, In (RFold h sub) fs ->
+     fold_hdr_wf vars (comp_vids vs) (comp_feids fs) avail h (raw_root sub) = true /\
+     interval_ok sub = true /\
+     imports_exact (comp_vids vs) (comp_feids fs) h (tags_used sub) = true /\
+     wf_comp vars (fo_imported h ++ avail) sub = true).
+Proof.
+  cbn [wf_comp]. fold (comp_vids vs). fold (comp_feids fs). intros H.
+  apply andb_prop in H. destruct H as (H & Hfolds).
+  apply andb_prop in H. destruct H as (H & Houts).
+  apply andb_prop in H. destruct H as (H & Hverts).
+  apply andb_prop in H. destruct H as (H & Hedges).
+  apply andb_prop in H. destruct H as (H & Hentered).
+  apply andb_prop in H. destruct H as (H & Hroot).
+  apply andb_prop in H. destruct H as (Hse & Hsf).
+  rewrite forallb_forall in Hfolds, Houts, Hverts, Hedges, Hentered.
+  split; [exact Hse|]. split; [exact Hsf|]. split; [now apply memN_In|].
+  split; [|split; [exact Hedges|split; [exact Hverts|split]]].
+  - intros v Hv. specialize (Hentered _ Hv). apply orb_prop in Hentered. destruct Hentered as [E|E].
+    + left. now apply N.eqb_eq.
+    + right. now apply memN_In.
+  - intros o Ho. apply memN_In. auto.
+  - intros h sub Hin. specialize (Hfolds _ Hin). cbn beta iota in Hfolds.
+    apply andb_prop in Hfolds. destruct Hfolds as (Hf & Hw).
+    apply andb_prop in Hf. destruct Hf as (Hf & Him).
+    apply andb_prop in Hf. destruct Hf as (Hf & Hiv). auto.
+Qed.
+
+Lemma edge_wf_inv vids e : edge_wf vids e = true ->
+  e_to e = e_eid e + 1 /\ In (e_from e) vids /\ In (e_to e) vids /\ e_from e < e_to e /\ edge_ok e = true.
+Proof.
+  unfold edge_wf. intros H.
+  apply andb_prop in H. destruct H as (H & H5). apply andb_prop in H. destruct H as (H & H4).
+  apply andb_prop in H. destruct H as (H & H3). apply andb_prop in H. destruct H as (H1 & H2).
+  apply N.eqb_eq in H1. apply memN_In in H2. apply memN_In in H3. apply N.ltb_lt in H4. auto.
+Qed.
+
+Lemma fold_hdr_wf_inv vars vids feids avail h r : fold_hdr_wf vars vids feids avail h r = true ->
+  fo_to h = fo_eid h + 1 /\ In (fo_from h) vids /\ fo_from h < fo_to h /\ fo_to h = r /\
+  (forall p, In p (fo_post h) -> arg_wf vars vids feids avail (fo_to h) (pf_arg p) = true) /\
+  (forall t, In t (fo_imported h) -> tag_ok vids feids [] (fo_to h) t = true).
+Proof.
+  unfold fold_hdr_wf. intros H.
+  apply andb_prop in H. destruct H as (H & H6). apply andb_prop in H. destruct H as (H & H5).
+  apply andb_prop in H. destruct H as (H & H4). apply andb_prop in H. destruct H as (H & H3).
+  apply andb_prop in H. destruct H as (H1 & H2).
+  apply N.eqb_eq in H1. apply memN_In in H2. apply N.ltb_lt in H3. apply N.eqb_eq in H4.
+  rewrite forallb_forall in H5, H6. auto 10.
+Qed.
+
+Lemma interval_ok_inv c : interval_ok c = true ->
+  forall e, In e (all_eids c) -> raw_root c <= e /\ e < raw_root c + N.of_nat (List.length (all_eids c)).
+Proof.
+  unfold interval_ok. intros H e He. rewrite forallb_forall in H. specialize (H _ He).
+  apply andb_prop in H. destruct H as (H1 & H2). apply N.leb_le in H1. apply N.ltb_lt in H2. auto.
+Qed.
+
+(* ================================================================== *)
+(* 5. lowering succeeds on well-formed components                      *)
+(* ================================================================== *)
+Fixpoint lower_folds (fs : list raw_fold) : res (list (fold_hdr * ir_component)) :=
+  match fs with
+  | [] => Ok []
+  | RFold h sub :: r => do s <- lower sub; do r' <- lower_folds r; Ok ((h, s) :: r')
+  end.
+
+Lemma lower_eq root vs es fs outs :
+  lower (RComp root vs es fs outs) =
+  (do fs' <- lower_folds fs;
+   do steps <- merge_steps es fs';
+   do _ <- check_visits [root] steps;
+   Ok (mkComp root vs steps outs)).
+Proof.
+  cbn [lower]. f_equal.
+Qed.
+
+Lemma lower_folds_inv fs : forall fs', lower_folds fs = Ok fs' ->
+  Forall2 (fun f hc => fst hc = rf_hdr f /\ lower (rf_comp f) = Ok (snd hc)) fs fs'.
+Proof.
+  induction fs as [|[h sub] r IH]; intros fs' H; cbn [lower_folds] in H.
+  - injection H as <-. constructor.
+  - inv_bind H. inv_bind H. injection H as <-. constructor; [cbn; auto|]. now apply IH.
+Qed.
+
+Lemma Forall2_in_r {A B} (R : A -> B -> Prop) l1 l2 y :
+  Forall2 R l1 l2 -> In y l2 -> exists x, In x l1 /\ R x y.
+Proof.
+  induction 1 as [|a b l1 l2 Hab _ IH]; [intros []|].
+  intros [<-|Hin]; [exists a; split; [now left|assumption]|].
+  destruct (IH Hin) as (x & Hx & HR). exists x. split; [now right|assumption].
+Qed.
+Lemma Forall2_in_l {A B} (R : A -> B -> Prop) l1 l2 x :
+  Forall2 R l1 l2 -> In x l1 -> exists y, In y l2 /\ R x y.
+Proof.
+  induction 1 as [|a b l1 l2 Hab _ IH]; [intros []|].
+  intros [<-|Hin]; [exists b; split; [now left|assumption]|].
+  destruct (IH Hin) as (y & Hy & HR). exists y. split; [now right|assumption].
+Qed.
+
+Lemma lower_inv root vs es fs outs c' :
+  lower (RComp root vs es fs outs) = Ok c' ->
+  exists fs' steps, lower_folds fs = Ok fs' /\ merge_steps es fs' = Ok steps /\
+                    c' = mkComp root vs steps outs.
+Proof.
+  rewrite lower_eq. intros H. inv_bind H. inv_bind H. inv_bind H. injection H as <-. eauto.
+Qed.
+
+Lemma lower_ok vars : forall c avail,
+  wf_comp vars avail c = true -> NoDup (all_eids c) -> interval_ok c = true ->
+  exists c', lower c = Ok c'.
+Proof.
+  induction c as [root vs es fs outs IHfs] using raw_comp_ind'. intros avail Hwf Hnd Hiv.
+  pose proof (wf_comp_inv _ _ _ _ _ _ _ Hwf) as (Hse & Hsf & Hroot & Hent & Hedges & _ & _ & Hfolds).
+  (* 1. the folded components *)
+  assert (Hlf : exists fs', lower_folds fs = Ok fs').
+  { assert (Hall : forall h sub, In (RFold h sub) fs -> exists c', lower sub = Ok c').
+    { intros h sub Hin. rewrite Forall_forall in IHfs. specialize (IHfs _ Hin). cbn [rf_comp] in IHfs.
+      destruct (Hfolds h sub Hin) as (_ & Hiv' & _ & Hwf').
+      apply (IHfs _ Hwf'); [|exact Hiv'].
+      pose proof (all_eids_fold_nodup _ _ _ _ _ _ _ Hnd Hin) as Hn. now inversion Hn. }
+    clear - Hall. induction fs as [|[h sub] r IH]; [exists []; reflexivity|].
+    destruct (Hall h sub (or_introl eq_refl)) as (c' & Hc').
+    destruct IH as (r' & Hr'); [intros h0 s0 H0; apply (Hall h0 s0); now right|].
+    cbn [lower_folds]. rewrite Hc', Hr'. cbn [bind]. eauto. }
+  destruct Hlf as (fs' & Hlf).
+  pose proof (lower_folds_inv _ _ Hlf) as HF2.
+  assert (Efe : fold_eids fs' = comp_feids fs).
+  { clear - HF2. unfold fold_eids, comp_feids. induction HF2 as [|f hc l1 l2 (E & _) _ IH]; [reflexivity|].
+    cbn [map]. now rewrite IH, E. }
+  (* 2. the merge *)
+  destruct (merge_steps_ok es fs') as (ss & Hm & Ees & Efs & Hsorted).
+  { now apply sortedN_strong. } { rewrite Efe. now apply sortedN_strong. }
+  { rewrite Efe. intros x Hx Hy. cbn [all_eids] in Hnd. apply (NoDup_app_disj _ _ x Hnd Hx).
+    unfold comp_feids in Hy. apply in_map_iff in Hy. destruct Hy as ([h sub] & <- & Hin).
+    apply in_flat_map. exists (RFold h sub). split; [assumption|now left]. }
+  (* 3. the visited asserts *)
+  assert (Hstep : forall s, In s ss ->
+            step_to s = step_eid s + 1 /\ step_from s < step_to s /\ In (step_from s) (comp_vids vs)
+            /\ In (step_eid s) (all_eids (RComp root vs es fs outs))).
+  { intros s Hs. apply in_steps in Hs. destruct s as [e|h c0].
+    - rewrite Ees in Hs. destruct (edge_wf_inv _ _ (Hedges _ Hs)) as (E1 & E2 & _ & E4 & _).
+      cbn [step_to step_eid step_from]. repeat split; try assumption.
+      cbn [all_eids]. apply in_or_app. left. now apply in_map.
+    - rewrite Efs in Hs. destruct (Forall2_in_r _ _ _ _ HF2 Hs) as ([h' sub] & Hin & (Eh & _)).
+      cbn [fst rf_hdr] in Eh. subst h'.
+      destruct (Hfolds _ _ Hin) as (Hh & _). destruct (fold_hdr_wf_inv _ _ _ _ _ _ Hh) as (E1 & E2 & E3 & _).
+      cbn [step_to step_eid step_from]. repeat split; try assumption.
+      apply (all_eids_fold_incl root vs es fs outs h sub Hin). now left. }
+  assert (Hcv : check_visits [root] ss = Ok tt).
+  { apply check_visits_ok.
+    - exact Hsorted.
+    - intros s Hs. destruct (Hstep s Hs) as (E1 & E2 & _). auto.
+    - intros s Hs. destruct (Hstep s Hs) as (_ & _ & E3 & _).
+      destruct (Hent _ E3) as [->|Hin]; [left; now left|].
+      right. apply in_map_iff in Hin. destruct Hin as (e' & E & He').
+      exists (SEdge e'). split; [|exact E]. apply in_steps. now rewrite Ees.
+    - intros s Hs [E|[]]. destruct (Hstep s Hs) as (E1 & _ & _ & E4).
+      destruct (interval_ok_inv _ Hiv _ E4) as (Hlo & _). cbn [raw_root] in Hlo. lia. }
+  rewrite lower_eq, Hlf. cbn [bind]. rewrite Hm. cbn [bind]. rewrite Hcv. cbn [bind]. eauto.
+Qed.
+
+Lemma wf_ir_inv q : wf_ir q = true ->
+  wf_comp (rq_vars q) [] (rq_comp q) = true /\ NoDup (all_vids (rq_comp q)) /\ NoDup (all_eids (rq_comp q))
+  /\ NoDup (all_outs (rq_comp q)) /\ interval_ok (rq_comp q) = true.
+Proof.
+  unfold wf_ir. intros H.
+  apply andb_prop in H. destruct H as (H & H5). apply andb_prop in H. destruct H as (H & H4).
+  apply andb_prop in H. destruct H as (H & H3). apply andb_prop in H. destruct H as (H1 & H2).
+  apply nodupN_NoDup in H2. apply nodupN_NoDup in H3. apply nodup_str_NoDup in H4. auto.
+Qed.
+
+Theorem wf_ir_lower_ok q : wf_ir q = true -> exists q', lower_query q = Ok q'.
+Proof.
+  intros H. destruct (wf_ir_inv q H) as (Hwf & _ & Hne & _ & Hiv).
+  destruct (lower_ok _ _ _ Hwf Hne Hiv) as (c' & Hc'). unfold lower_query. rewrite Hc'. cbn [bind]. eauto.
+Qed.
+
+(* ================================================================== *)
+(* 6. what a successful indexing run has built                         *)
+(* ================================================================== *)
+Lemma lookup_N_app {A} k (l1 l2 : list (N * A)) :
+  lookup_N k (l1 ++ l2) = match lookup_N k l1 with Some x => Some x | None => lookup_N k l2 end.
+Proof. induction l1 as [|[k' a] r IH]; cbn [app lookup_N]; [reflexivity|]. destruct (N.eqb k k'); auto. Qed.
+Lemma lookup_str_app {A} k (l1 l2 : list (string * A)) :
+  lookup_str k (l1 ++ l2) = match lookup_str k l1 with Some x => Some x | None => lookup_str k l2 end.
+Proof. induction l1 as [|[k' a] r IH]; cbn [app lookup_str]; [reflexivity|]. destruct (String.eqb k k'); auto. Qed.
+
+Lemma lookup_N_none {A} k (l : list (N * A)) : lookup_N k l = None <-> ~ In k (map fst l).
+Proof.
+  induction l as [|[k' a] r IH]; cbn [lookup_N map fst In]; [tauto|].
+  destruct (N.eqb_spec k k') as [->|Hn]; [split; [discriminate|tauto]|].
+  rewrite IH. split; [intros H [E|H']; [congruence|auto]|tauto].
+Qed.
+Lemma lookup_str_none {A} k (l : list (string * A)) : lookup_str k l = None <-> ~ In k (map fst l).
+Proof.
+  induction l as [|[k' a] r IH]; cbn [lookup_str map fst In]; [tauto|].
+  destruct (String.eqb_spec k k') as [->|Hn]; [split; [discriminate|tauto]|].
+  rewrite IH. split; [intros H [E|H']; [congruence|auto]|tauto].
+Qed.
+Lemma lookup_N_in {A} k (a : A) (l : list (N * A)) : lookup_N k l = Some a -> In (k, a) l.
+Proof.
+  induction l as [|[k' a'] r IH]; cbn [lookup_N]; [discriminate|].
+  destruct (N.eqb_spec k k') as [->|Hn]; [intros [= ->]; now left|right; auto].
+Qed.
+Lemma lookup_N_nodup {A} k (a : A) (l : list (N * A)) :
+  NoDup (map fst l) -> In (k, a) l -> lookup_N k l = Some a.
+Proof.
+  induction l as [|[k' a'] r IH]; cbn [lookup_N map fst]; [intros _ []|].
+  intros Hn [[= -> ->]|Hin]; [now rewrite N.eqb_refl|]. inversion Hn; subst.
+  destruct (N.eqb_spec k k') as [->|Hne]; [|auto]. exfalso. apply H1. apply in_map_iff. exists (k', a). auto.
+Qed.
+Lemma lookup_str_in {A} k (a : A) (l : list (string * A)) : lookup_str k l = Some a -> In (k, a) l.
+Proof.
+  induction l as [|[k' a'] r IH]; cbn [lookup_str]; [discriminate|].
+  destruct (String.eqb_spec k k') as [->|Hn]; [intros [= ->]; now left|right; auto].
+Qed.
+Lemma lookup_str_nodup {A} k (a : A) (l : list (string * A)) :
+  NoDup (map fst l) -> In (k, a) l -> lookup_str k l = Some a.
+Proof.
+  induction l as [|[k' a'] r IH]; cbn [lookup_str map fst]; [intros _ []|].
+  intros Hn [[= -> ->]|Hin]; [now rewrite String.eqb_refl|]. inversion Hn; subst.
+  destruct (String.eqb_spec k k') as [->|Hne]; [|auto]. exfalso. apply H1. apply in_map_iff. exists (k', a). auto.
+Qed.
+
+Lemma ix_has_key_N_false {A} k (l : list (N * A)) : Indexed.has_key_N k l = false <-> ~ In k (map fst l).
+Proof. unfold Indexed.has_key_N. rewrite <- lookup_N_none. destruct (lookup_N k l); split; congruence. Qed.
+Lemma ix_has_key_str_false {A} k (l : list (string * A)) : has_key_str k l = false <-> ~ In k (map fst l).
+Proof. unfold has_key_str. rewrite <- lookup_str_none. destruct (lookup_str k l); split; congruence. Qed.
+
+Lemma add_vertices_shape root vars vs : forall vids vids',
+  add_vertices root vars vs vids = inr vids' -> vids' = vids ++ map (fun v => (v_vid v, root)) vs.
+Proof.
+  induction vs as [|v r IH]; intros vids vids' H; cbn [add_vertices] in H.
+  - injection H as <-. now rewrite app_nil_r.
+  - destruct (Indexed.has_key_N (v_vid v) vids); [discriminate|].
+    destruct (check_filters_vars vars (v_filters v)); [discriminate|].
+    rewrite (IH _ _ H). cbn [map]. now rewrite <- app_assoc.
+Qed.
+
+Lemma add_edges_shape root es vids : forall eids eids',
+  add_edges root es vids eids = inr eids' -> eids' = eids ++ map (fun e => (e_eid e, false)) es.
+Proof.
+  induction es as [|e r IH]; intros eids eids' H; cbn [add_edges] in H.
+  - injection H as <-. now rewrite app_nil_r.
+  - destruct (negb (e_eid e + 1 =? e_to e)); [discriminate|].
+    destruct (owner_check root vids (e_from e) 5%Z 6%Z); [discriminate|].
+    destruct (owner_check root vids (e_to e) 7%Z 8%Z); [discriminate|].
+    destruct (Indexed.has_key_N (e_eid e) eids); [discriminate|].
+    rewrite (IH _ _ H). cbn [map]. now rewrite <- app_assoc.
+Qed.
+
+Lemma add_outputs_shape root opt stack outs vids : forall acc acc',
+  add_outputs root opt stack outs vids acc = Ok (inr acc') ->
+  exists no, acc' = acc ++ no /\ map fst no = map fst outs /\
+    forall n t v, In (n, (t, v)) no ->
+      exists cf, In (n, cf) outs /\ v = cf_vid cf /\ get_output_type (cf_vid cf) (cf_ty cf) opt stack = Ok t.
+Proof.
+  induction outs as [|[name cf] r IH]; intros acc acc' H; cbn [add_outputs] in H.
+  - injection H as <-. exists []. rewrite app_nil_r. split; [reflexivity|]. split; [reflexivity|]. intros ? ? ? [].
+  - destruct (owner_check root vids (cf_vid cf) 1%Z 2%Z); [discriminate|].
+    inv_bind H. destruct (has_key_str name acc); [discriminate|].
+    destruct (IH _ _ H) as (no & -> & E & Hno).
+    exists ((name, (x, cf_vid cf)) :: no). rewrite <- app_assoc. cbn [app map fst]. split; [reflexivity|].
+    split; [now rewrite E|].
+    intros n t v [[= <- <- <-]|Hin].
+    + exists cf. split; [now left|]. auto.
+    + destruct (Hno _ _ _ Hin) as (cf' & Hcf & Ev & Ht). exists cf'. split; [now right|auto].
+Qed.
+
+Lemma add_fsouts_shape h opt stack names : forall acc acc',
+  add_fsouts h opt stack names acc = Ok (inr acc') ->
+  exists no, acc' = acc ++ no /\ map fst no = names /\
+    forall n t v, In (n, (t, v)) no ->
+      In n names /\ v = fo_to h /\ get_output_type (fo_from h) count_type opt stack = Ok t.
+Proof.
+  induction names as [|name r IH]; intros acc acc' H; cbn [add_fsouts] in H.
+  - injection H as <-. exists []. rewrite app_nil_r. split; [reflexivity|]. split; [reflexivity|]. intros ? ? ? [].
+  - inv_bind H. destruct (has_key_str name acc); [discriminate|].
+    destruct (IH _ _ H) as (no & -> & E & Hno).
+    exists ((name, (x, fo_to h)) :: no). rewrite <- app_assoc. cbn [app map fst]. split; [reflexivity|].
+    split; [now rewrite E|].
+    intros n t v [[= <- <- <-]|Hin].
+    + split; [now left|]. auto.
+    + destruct (Hno _ _ _ Hin) as (Hn & Ev & Ht). split; [now right|auto].
+Qed.
+
+Lemma fold_header_shape root opt stack h sub st st2 :
+  fold_header root opt stack h sub st = Ok (inr st2) ->
+  st_vids st2 = st_vids st /\ st_eids st2 = st_eids st ++ [(fo_eid h, true)] /\
+  exists no, st_outs st2 = st_outs st ++ no /\ map fst no = fo_fsout h /\
+    forall n t v, In (n, (t, v)) no ->
+      In n (fo_fsout h) /\ v = fo_to h /\ get_output_type (fo_from h) count_type opt stack = Ok t.
+Proof.
+  unfold fold_header. intros H.
+  destruct (negb (fo_eid h + 1 =? fo_to h)); [discriminate|].
+  destruct (owner_check root (st_vids st) (fo_from h) 11%Z 12%Z); [discriminate|].
+  destruct (negb (fo_to h =? raw_root sub)); [discriminate|].
+  destruct (Indexed.has_key_N (fo_eid h) (st_eids st)); [discriminate|].
+  inv_bind H. destruct x as [e|outs']; [discriminate|]. injection H as <-. cbn [st_vids st_eids st_outs].
+  split; [reflexivity|]. split; [reflexivity|]. exact (add_fsouts_shape _ _ _ _ _ _ Hx).
+Qed.
+
+Lemma fold_loop_inv {S} (body : fold_hdr -> raw_comp -> S -> ires S)
+      (Pf : raw_fold -> Prop) (Q : list raw_fold -> S -> S -> Prop) :
+  (forall st, Q [] st st) ->
+  (forall h sub r st st1 st', Pf (RFold h sub) -> body h sub st = Ok (inr st1) -> Q r st1 st' ->
+                              Q (RFold h sub :: r) st st') ->
+  forall fs, Forall Pf fs -> forall st st', fold_loop body fs st = Ok (inr st') -> Q fs st st'.
+Proof.
+  intros Hnil Hcons fs HF. induction HF as [|[h sub] r Hp _ IH]; intros st st' H; cbn [fold_loop] in H.
+  - injection H as <-. apply Hnil.
+  - inv_bind H. destruct x as [e|st1]; [discriminate|]. eapply Hcons; eauto.
+Qed.
+
+(* the declared outputs, relationally: name, type, vid *)
+Inductive declares : raw_comp -> list bool -> string -> ty -> N -> Prop :=
+| decl_own root vs es fs outs stack n cf t :
+    In (n, cf) outs ->
+    get_output_type (cf_vid cf) (cf_ty cf) (optional_vertices es) stack = Ok t ->
+    declares (RComp root vs es fs outs) stack n t (cf_vid cf)
+| decl_count root vs es fs outs stack h sub n t :
+    In (RFold h sub) fs -> In n (fo_fsout h) ->
+    get_output_type (fo_from h) count_type (optional_vertices es) stack = Ok t ->
+    declares (RComp root vs es fs outs) stack n t (fo_to h)
+| decl_inner root vs es fs outs stack h sub n t v :
+    In (RFold h sub) fs ->
+    declares sub (memN (fo_from h) (optional_vertices es) :: stack) n t v ->
+    declares (RComp root vs es fs outs) stack n t v.
+
+Definition sub_vids (f : raw_fold) : list N := match f with RFold _ sub => all_vids sub end.
+Definition sub_eids (f : raw_fold) : list N := match f with RFold h sub => fo_eid h :: all_eids sub end.
+Definition sub_outs (f : raw_fold) : list string := match f with RFold h sub => fo_fsout h ++ all_outs sub end.
+
+Lemma all_vids_eq root vs es fs outs :
+  all_vids (RComp root vs es fs outs) = map v_vid vs ++ flat_map sub_vids fs.
+Proof. reflexivity. Qed.
+Lemma all_eids_eq root vs es fs outs :
+  all_eids (RComp root vs es fs outs) = map e_eid es ++ flat_map sub_eids fs.
+Proof. reflexivity. Qed.
+Lemma all_outs_eq root vs es fs outs :
+  all_outs (RComp root vs es fs outs) = map fst outs ++ flat_map sub_outs fs.
+Proof. reflexivity. Qed.
+
+Definition grows (keysv keyse : list N) (keyso : list string) (decl : string -> ty -> N -> Prop)
+           (st st' : ixstate) : Prop :=
+  exists nv ne no,
+    st_vids st' = st_vids st ++ nv /\ map fst nv = keysv /\
+    st_eids st' = st_eids st ++ ne /\ map fst ne = keyse /\
+    st_outs st' = st_outs st ++ no /\ map fst no = keyso /\
+    forall n t v, In (n, (t, v)) no -> decl n t v.
+
+Lemma add_shape vars : forall c stack st st',
+  add_data_from_component vars c stack st = Ok (inr st') ->
+  grows (all_vids c) (all_eids c) (all_outs c) (declares c stack) st st'.
+Proof.
+  induction c as [root vs es fs outs IHfs] using raw_comp_ind'. intros stack st st' H.
+  cbn [add_data_from_component] in H.
+  destruct (negb match find_vertex vs root with Some _ => true | None => false end); [discriminate|].
+  destruct (add_vertices root vars vs (st_vids st)) as [e|vids] eqn:Ev; [discriminate|].
+  inv_bind H. destruct x as [e|outs1]; [discriminate|].
+  destruct (add_edges root es vids (st_eids st)) as [e|eids1] eqn:Ee; [discriminate|].
+  apply add_vertices_shape in Ev. apply add_edges_shape in Ee.
+  destruct (add_outputs_shape _ _ _ _ _ _ _ Hx) as (no0 & Eo & Eno & Hno0).
+  set (opt := optional_vertices es) in *.
+  (* the folds loop *)
+  pose (Q := fun (l : list raw_fold) (s s' : ixstate) =>
+          grows (flat_map sub_vids l) (flat_map sub_eids l) (flat_map sub_outs l)
+                (fun n t v => exists h sub, In (RFold h sub) l /\
+                   ((In n (fo_fsout h) /\ v = fo_to h /\ get_output_type (fo_from h) count_type opt stack = Ok t)
+                    \/ declares sub (memN (fo_from h) opt :: stack) n t v)) s s').
+  assert (HQ : Q fs (mkSt vids eids1 outs1) st').
+  { revert H. apply (fold_loop_inv _ (fun f => forall stack st st',
+        add_data_from_component vars (rf_comp f) stack st = Ok (inr st') ->
+        grows (all_vids (rf_comp f)) (all_eids (rf_comp f)) (all_outs (rf_comp f)) (declares (rf_comp f) stack) st st') Q).
+    - intros s. exists [], [], []. rewrite !app_nil_r. cbn [flat_map map]. repeat split. intros ? ? ? [].
+    - intros h sub r s s1 s' Hp Hb (nv & ne & no & E1 & K1 & E2 & K2 & E3 & K3 & Hd).
+      inv_bind Hb. destruct x as [e|s2]; [discriminate|].
+      destruct (fold_header_shape _ _ _ _ _ _ _ Hx0) as (F1 & F2 & (nof & F3 & F4 & F5)).
+      destruct (Hp _ _ _ Hb) as (nv' & ne' & no' & G1 & K1' & G2 & K2' & G3 & K3' & Hd'). cbn [rf_comp] in *.
+      exists (nv' ++ nv), ((fo_eid h, true) :: ne' ++ ne), (nof ++ no' ++ no).
+      cbn [flat_map sub_vids sub_eids sub_outs].
+      rewrite E1, G1, F1, E2, G2, F2, E3, G3, F3, <- !app_assoc. cbn [app].
+      split; [reflexivity|]. split; [now rewrite map_app, K1', K1|]. split; [reflexivity|].
+      split; [cbn [map fst]; now rewrite map_app, K2', K2|]. split; [reflexivity|].
+      split; [now rewrite !map_app, F4, K3', K3|].
+      intros n t v Hin. rewrite !in_app_iff in Hin. destruct Hin as [Hin|[Hin|Hin]].
+      + exists h, sub. split; [now left|]. left. exact (F5 _ _ _ Hin).
+      + exists h, sub. split; [now left|]. right. exact (Hd' _ _ _ Hin).
+      + destruct (Hd _ _ _ Hin) as (h' & sub' & Hin' & Hc). exists h', sub'. split; [now right|exact Hc].
+    - exact IHfs. }
+  destruct HQ as (nv & ne & no & E1 & K1 & E2 & K2 & E3 & K3 & Hd). cbn [st_vids st_eids st_outs] in *.
+  exists (map (fun v => (v_vid v, root)) vs ++ nv), (map (fun e => (e_eid e, false)) es ++ ne), (no0 ++ no).
+  rewrite all_vids_eq, all_eids_eq, all_outs_eq.
+  rewrite E1, Ev, E2, Ee, E3, Eo, <- !app_assoc, !map_app, K1, K2, K3, Eno, !map_map. cbn [fst].
+  repeat split.
+  intros n t v Hin. rewrite in_app_iff in Hin. destruct Hin as [Hin|Hin].
+  - destruct (Hno0 _ _ _ Hin) as (cf & Hcf & -> & Ht). eapply decl_own; eauto.
+  - destruct (Hd _ _ _ Hin) as (h & sub & Hin' & [(Hn & -> & Ht)|Hdec]).
+    + eapply decl_count; eauto.
+    + eapply decl_inner; eauto.
+Qed.
